@@ -28,7 +28,20 @@ D2 == D1 \cup {[c |-> "vec", e |-> s] : s \in Mid}
          \cup {[c |-> "map", k |-> L("string"), v |-> s] : s \in Mid}
          \cup {[c |-> "tuple", f |-> <<s, L("string")>>] : s \in Mid}
          \cup {[c |-> "dataenum", vk |-> vk, e |-> s] : s \in Mid \ {m \in Mid : m.c = "dict"}, vk \in {"newtype", "struct1"}}
-Shapes == IF LEVEL = 1 THEN D1 ELSE D2
+(* second-level shapes that are part of every run: nestings on which the library was found to break (sequences of
+   data-carrying enums, newtype variants with a structure payload) and one representative of every second-level family *)
+Pair(a, b) == [c |-> "tuple", f |-> <<a, b>>]
+Always ==
+  {[c |-> "vec", e |-> [c |-> "dataenum", vk |-> vk, e |-> x]] : vk \in {"newtype", "tuple2", "struct1", "struct2"}, x \in {L("value"), L("string")}}
+  \cup {[c |-> "dataenum", vk |-> "newtype", e |-> x] :
+          x \in {Pair(L("u8"), L("u8")), Pair(L("bool"), L("value")), [c |-> "struct", f |-> <<L("u8"), L("string")>>],
+                 [c |-> "tstruct", f |-> <<L("u32"), L("string")>>], [c |-> "newtype", e |-> L("ipv4")],
+                 [c |-> "newtype", e |-> L("duration")]}}
+  \cup {[c |-> "map", k |-> L("string"), v |-> [c |-> "dataenum", vk |-> "newtype", e |-> L("value")]],
+        [c |-> "vec", e |-> [c |-> "struct", f |-> <<L("string"), L("value")>>]],
+        [c |-> "struct", f |-> <<L("u8"), [c |-> "vec", e |-> L("string")]>>],
+        [c |-> "newtype", e |-> [c |-> "map", k |-> L("u8"), v |-> L("string")]]}
+Shapes == IF LEVEL = 1 THEN D1 \cup Always ELSE D2 \cup Always
 VARIABLE s
 Init == s \in Shapes
 Next == UNCHANGED s
